@@ -590,6 +590,14 @@ def check_C13(code, version, env):
             if i < len(ls) and ls[i].start_pos[0] not in lines_seen:
                 F.append(Fail('bnd:C13.coverage.error_node', 'fstring' if _has_fstring(n) else 'plain',
                               'token after error node is on line %d, not reported' % ls[i].start_pos[0], code))
+            # the statement says "each error leaf's line": also the error leaves *inside* an error node (the error finder skips
+            # the inside of error nodes on purpose; a separate signature, a listed finding)
+            for l in leaves_of(n):
+                if l.type == 'error_leaf' and l.token_type not in ('INDENT', 'DEDENT', 'ERROR_DEDENT') \
+                        and l.start_pos[0] not in lines_seen:
+                    F.append(Fail('bnd:C13.coverage.error_leaf', 'nested-in-error-node',
+                                  'error leaf %r on line %d inside an error node not reported' % (l.value[:20], l.start_pos[0]), code))
+                    break
             return
         for c in n.children:
             rec(c)
